@@ -15,6 +15,10 @@
 (*                 float inputs has relative size 1e-9 .. 1e-12 (orders    *)
 (*                 above rounding): its class is the exact sign, dpos      *)
 (*                 (by DiscriminantDecides D > 0 decides solvability)      *)
+(*         "insitu" a site of an update (or of one attempt) of a REAL run:  *)
+(*                 z, w are the documented ones of psi^n, mu^n, epsilon,   *)
+(*                 dt and the covariant Laplacian in force; dpos = exact   *)
+(*                 sign of their discriminant (where |D|/(2c+1)^2 >= 1e-9) *)
 (*   e1    |p + z s - w| in quanta (quantum = T.quantum of the scale)      *)
 (*   e2    |s - |p|^2|   in quanta                                         *)
 (*   br    2|z|^2 s <= 2c+1 (with the same tolerance)                      *)
@@ -42,6 +46,7 @@ E(n) == T.ev[n]
 OnGrid(n) == E(n).kind \in {"grid", "free"}
 SolvableAt(n) == \/ E(n).kind = "small"
                  \/ E(n).kind = "near" /\ E(n).dpos
+                 \/ E(n).kind = "insitu" /\ E(n).dpos
                  \/ OnGrid(n) /\ Solvable(E(n).zr, E(n).zi, E(n).wr, E(n).wi)
 VerdictFree(n) == E(n).kind = "free"
 
